@@ -273,23 +273,28 @@ def run(tier, seed, replay=None):
     rrows = []
     dup_sqls = set(EXTRA_SQL[EXTRA_SQL.index(DUPLICATES_FROM):])
     todo = []
-    for s, tree, vs in good_rows[: (150 if tier == 'quick' else 1500)]:
-        ids = [v[0] for v in vs[1:] if v[0] != NONE_ID]
+    def parse_again(s):
+        # the tree the replacement is applied to: parsed here, so that "before" and "after" come from the same parse
+        # (the statement may have been harvested for another dialect, which can group operators differently)
+        for d in ('mindsdb', 'mysql'):
+            try:
+                ast = parse_sql(s, d)
+                idmap = {}
+                return ast, to_tree(ast, cids, fids, [0], idmap), idmap
+            except Exception:
+                continue
+        return None
+    for s, tree0, vs in good_rows[: (150 if tier == 'quick' else 1500)]:
+        pa = parse_again(s)
+        if pa is None:
+            continue
+        ids = [i for i, _, _ in _positions(pa[1], names_rev, fids_rev)]
         if not ids:
             continue
         for x in (ids if s in dup_sqls else rng.sample(ids, min(len(ids), 2))):
-            todo.append((s, tree, x))
-    for s, tree, x in todo:
-        d = 'mindsdb'
-        try:
-            ast = parse_sql(s, d)
-        except Exception:
-            try:
-                ast = parse_sql(s, 'mysql')
-            except Exception:
-                continue
-        idmap = {}
-        to_tree(ast, cids, fids, [0], idmap)
+            todo.append((s, x))
+    for s, x in todo:
+        ast, tree, idmap = parse_again(s)
         inv = {v: k for k, v in idmap.items() if k != '_keep'}
         if x not in inv:
             continue
